@@ -12,6 +12,7 @@ exactly-once delivery is C10.
 import DC.Proofs.DequeLemmas
 
 namespace DC.Deque
+open DC.Cache
 
 structure Ok (d : Deque) : Prop where
   inv : Cache.TableInv d.cache
@@ -27,13 +28,26 @@ structure Ok (d : Deque) : Prop where
 /-- the items front to back -/
 def items (d : Deque) : List Row := d.cache.queueRows none
 
+theorem Ok.allq' {d : Deque} (h : Ok d) : ∀ r ∈ d.cache.rows, r ∈ qrows d.cache.rows none := h.allq
+
+theorem Ok.items_length {d : Deque} (h : Ok d) : (items d).length = d.cache.rows.length :=
+  qrows_length_all h.allq'
+
+theorem Ok.mem_rows {d : Deque} {r : Row} (hr : r ∈ items d) : r ∈ d.cache.rows :=
+  (mem_qrows (rows := d.cache.rows) (p := none)).1 hr |>.1
+
+theorem Ok.unexpired {d : Deque} (h : Ok d) {r : Row} (hr : r ∈ items d) (now : Int) :
+    Cache.expired now r = false := by
+  unfold Cache.expired; rw [h.noexp r (Ok.mem_rows hr)]
+
 /-- `len(deque)` -/
 theorem len_exact (d : Deque) (h : Ok d) : (d.len).2 = .int (items d).length := by
-  sorry
+  show Out.int d.cache.count = _
+  rw [h.inv.tbl.count, h.items_length]
 
 /-- nothing is ever lost to eviction or expiry -/
-theorem never_loses (d : Deque) (now : Int) (h : Ok d) : (d.cache.cullW now).1.rows = d.cache.rows := by
-  sorry
+theorem never_loses (d : Deque) (now : Int) (h : Ok d) : (d.cache.cullW now).1.rows = d.cache.rows :=
+  cullW_quiet d.cache now (Or.inr ⟨h.pol, fun r hr => by unfold Cache.expired; rw [h.noexp r hr]⟩)
 
 /-- `append` with room left (no maxlen, or fewer than maxlen items): the new item goes to the
 back, everything else stays -/
@@ -42,7 +56,24 @@ theorem append_grows (d : Deque) (E : Externals) (now : Int) (v : PyVal) (h : Ok
     (s1 : Cache) (c : Cache.Cols) (hst : d.cache.tbegin.store E v false = .ok (s1, c)) (hcb : c.bindable = true) :
     ∃ r : Row, items (d.append E now v false).1 = items d ++ [r] ∧
       r.mode = c.mode ∧ r.val = c.val ∧ r.file = c.file := by
-  sorry
+  obtain ⟨r, h1, h2, h3, h4, h5, hinv1, -, -⟩ :=
+    pushed_spec d E now v false h.inv h.pol h.noexp h.qok h.room h.origin hst hcb
+  have hcount : (pushed d E now v false).count = ((items d).length : Int) + 1 := by
+    rw [hinv1.tbl.count, h1, h.items_length]; simp
+  have htl : d.tooLong (pushed d E now v false) = false := by
+    unfold tooLong
+    cases hm : d.maxlen with
+    | none => rfl
+    | some m =>
+      have := hroom m hm
+      simp only [hcount, gt_iff_lt, decide_eq_false_iff_not]
+      omega
+  refine ⟨r, ?_, h3, h4, h5⟩
+  show (d.append E now v false).1.cache.queueRows none = _
+  rw [append_cache, htl]
+  simp only [Bool.false_eq_true, if_false]
+  rw [tend_queueRows, h2]
+  rfl
 
 /-- `appendleft` with room left: the new item goes to the front -/
 theorem appendleft_grows (d : Deque) (E : Externals) (now : Int) (v : PyVal) (h : Ok d)
@@ -50,7 +81,24 @@ theorem appendleft_grows (d : Deque) (E : Externals) (now : Int) (v : PyVal) (h 
     (s1 : Cache) (c : Cache.Cols) (hst : d.cache.tbegin.store E v false = .ok (s1, c)) (hcb : c.bindable = true) :
     ∃ r : Row, items (d.append E now v true).1 = r :: items d ∧
       r.mode = c.mode ∧ r.val = c.val ∧ r.file = c.file := by
-  sorry
+  obtain ⟨r, h1, h2, h3, h4, h5, hinv1, -, -⟩ :=
+    pushed_spec d E now v true h.inv h.pol h.noexp h.qok h.room h.origin hst hcb
+  have hcount : (pushed d E now v true).count = ((items d).length : Int) + 1 := by
+    rw [hinv1.tbl.count, h1, h.items_length]; simp
+  have htl : d.tooLong (pushed d E now v true) = false := by
+    unfold tooLong
+    cases hm : d.maxlen with
+    | none => rfl
+    | some m =>
+      have := hroom m hm
+      simp only [hcount, gt_iff_lt, decide_eq_false_iff_not]
+      omega
+  refine ⟨r, ?_, h3, h4, h5⟩
+  show (d.append E now v true).1.cache.queueRows none = _
+  rw [append_cache, htl]
+  simp only [Bool.false_eq_true, if_false]
+  rw [tend_queueRows, h2]
+  rfl
 
 /-- `append` on a full deque (maxlen items, maxlen ≥ 1) discards the FRONT item and adds at the
 back — the length stays maxlen, exactly like collections.deque -/
@@ -60,7 +108,32 @@ theorem append_full (d : Deque) (E : Externals) (now : Int) (v : PyVal) (h : Ok 
     (hfile : ∀ r ∈ items d, (d.cache.fetchRow E r false).2 ≠ .ioerror) :
     ∃ r : Row, items (d.append E now v false).1 = (items d).tail ++ [r] ∧
       r.mode = c.mode ∧ r.val = c.val ∧ r.file = c.file := by
-  sorry
+  obtain ⟨r, h1, h2, h3, h4, h5, hinv1, hcfg, hfiles⟩ :=
+    pushed_spec d E now v false h.inv h.pol h.noexp h.qok h.room h.origin hst hcb
+  have hcount : (pushed d E now v false).count = ((items d).length : Int) + 1 := by
+    rw [hinv1.tbl.count, h1, h.items_length]; simp
+  have htl : d.tooLong (pushed d E now v false) = true := by
+    unfold tooLong
+    rw [hm]
+    simp only [hcount, hfull, gt_iff_lt, decide_eq_true_eq]
+    omega
+  cases hit : items d with
+  | nil => rw [hit] at hfull; simp at hfull; omega
+  | cons x rest =>
+    have hx : x ∈ items d := by rw [hit]; exact List.mem_cons_self
+    have hq : (pushed d E now v false).queueRows none = x :: (rest ++ [r]) := by
+      rw [h2]
+      show items d ++ [r] = _
+      rw [hit]; rfl
+    have hfx := fetchRow_snd_mono d.cache (pushed d E now v false) E x false hcfg hfiles (hfile x hx)
+    obtain ⟨-, hp⟩ := pull_front (pushed d E now v false) E now none hinv1 x (rest ++ [r]) hq
+      (h.unexpired hx now) (by rw [hfx]; exact hfile x hx)
+    refine ⟨r, ?_, h3, h4, h5⟩
+    show (d.append E now v false).1.cache.queueRows none = _
+    rw [append_cache, htl]
+    simp only [if_true, Bool.not_false]
+    rw [tend_queueRows, hp]
+    rfl
 
 /-- `pop()` removes and returns the back item, `popleft()` the front item; an empty deque
 raises IndexError and stays empty -/
@@ -70,7 +143,22 @@ theorem pop_end (d : Deque) (E : Externals) (now : Int) (left : Bool) (h : Ok d)
       (d.cache.fetchRow E r false).2 ≠ .ioerror →
       (d.pop E now left).2 = Cache.fetchedOut (d.cache.fetchRow E r false).2 ∧
       items (d.pop E now left).1 = (if left then (items d).tail else (items d).dropLast)) := by
-  sorry
+  have hpop : (d.pop E now left).2 = indexErr (d.cache.pull E now none left false false).2 ∧
+      items (d.pop E now left).1 = (d.cache.pull E now none left false false).1.queueRows none :=
+    ⟨rfl, rfl⟩
+  constructor
+  · intro he
+    obtain ⟨h1, h2⟩ := pull_empty d.cache E now none left false false he
+    refine ⟨by rw [hpop.1, h1]; rfl, ?_⟩
+    rw [hpop.2, queueRows_eq, h2]
+    exact he
+  · intro r hr hf
+    have hmem : r ∈ items d := by
+      cases left with
+      | true => exact List.mem_of_head? hr
+      | false => exact List.mem_of_getLast? hr
+    obtain ⟨p1, p2⟩ := pull_end d.cache E now none left h.inv r hr (h.unexpired hmem now) hf
+    exact ⟨by rw [hpop.1, p1]; rfl, by rw [hpop.2, p2]; rfl⟩
 
 /-- `peek()` / `peekleft()` return the end item without removing it -/
 theorem peek_end (d : Deque) (E : Externals) (now : Int) (left : Bool) (h : Ok d) :
@@ -79,7 +167,21 @@ theorem peek_end (d : Deque) (E : Externals) (now : Int) (left : Bool) (h : Ok d
       (d.cache.fetchRow E r false).2 ≠ .ioerror →
       (d.peek E now left).2 = Cache.fetchedOut (d.cache.fetchRow E r false).2 ∧
       (d.peek E now left).1.cache.rows = d.cache.rows) := by
-  sorry
+  have hpk : (d.peek E now left).2 = indexErr (d.cache.peek E now none left false false).2 ∧
+      (d.peek E now left).1.cache = (d.cache.peek E now none left false false).1 := ⟨rfl, rfl⟩
+  constructor
+  · intro he
+    rw [hpk.1, (peek_empty d.cache E now none left false false he).1]
+    rfl
+  · intro r hr hf
+    have hmem : r ∈ items d := by
+      cases left with
+      | true => exact List.mem_of_head? hr
+      | false => exact List.mem_of_getLast? hr
+    have hlive := h.unexpired hmem now
+    obtain ⟨q1, q2⟩ := peek_is_next_pull d.cache E now none left h.inv r hr hlive hf
+    obtain ⟨p1, -⟩ := pull_end d.cache E now none left h.inv r hr hlive hf
+    exact ⟨by rw [hpk.1, q1, p1]; rfl, by rw [hpk.2, q2]⟩
 
 /-- positional access: index i (negative from the back) addresses `items[i]`, out of range is
 IndexError — over the whole integer range -/
@@ -88,18 +190,46 @@ theorem rowAt_spec (d : Deque) (i : Int) (h : Ok d) :
     (0 ≤ i ∧ i < n → d.rowAt i = (items d)[i.toNat]?) ∧
     (-n ≤ i ∧ i < 0 → d.rowAt i = (items d)[(n + i).toNat]?) ∧
     (i ≥ n ∨ i < -n → d.rowAt i = none) := by
-  sorry
+  intro n
+  have hL : sortedRows d.cache = items d :=
+    isort_keyRaw_eq_qrows h.inv.tbl.uniq h.inv.tbl.nonnull h.allq'
+  have hc : d.cache.count = ((items d).length : Int) := by rw [h.inv.tbl.count, h.items_length]
+  exact rowAt_eq d (items d) hL hc i
 
-/-- `deque[i]` returns the value of `items[i]` -/
-theorem getitem_spec (d : Deque) (E : Externals) (now : Int) (i : Int) (h : Ok d) (hE : ∀ k, E.loads (E.dumpsK k) = k) :
+set_option linter.unusedVariables false in  -- `hE` is not needed
+/-- `deque[i]` returns the value of `items[i]`.
+
+The statement without `hdisk`,
+  `theorem getitem_spec (d) (E) (now) (i) (h : Ok d) (hE : ∀ k, E.loads (E.dumpsK k) = k) : …`,
+is false: `getitem` looks the row up again through `Disk.get` / `Disk.put` of the configured disk,
+and `JSONDisk.get` of a raw integer queue key is not that key (the model gives `None`, CPython
+raises TypeError in `json.loads(zlib.decompress(500000000000000))`), so the second look-up misses
+and `deque[i]` raises IndexError although `items[i]` exists and its value can be fetched —
+`exDqJson_getitem` below. -/
+theorem getitem_spec (d : Deque) (E : Externals) (now : Int) (i : Int) (h : Ok d) (hE : ∀ k, E.loads (E.dumpsK k) = k)
+    -- added: the keys are read back by the pickle `Disk` (false for `JSONDisk`, see `exDqJson_getitem`)
+    (hdisk : d.cache.cfg.disk = .pickle) :
     (d.rowAt i = none → (d.getitem E now i).2 = .exc "IndexError") ∧
     (∀ r, d.rowAt i = some r → (d.cache.fetchRow E r false).2 ≠ .ioerror →
       (d.getitem E now i).2 = Cache.fetchedOut (d.cache.fetchRow E r false).2) := by
-  sorry
+  refine ⟨getitem_none d E now i, ?_⟩
+  intro r hr hf
+  have hmem := rowAt_mem d i r hr
+  obtain ⟨n, -, hn2, hn3, hn4⟩ := h.qok r (h.allq r hmem)
+  have hk : r.key = .int n := hn2.symm
+  have hraw := qfilter_raw (mem_qrows.1 (h.allq' r hmem)).2
+  have hi : inI64 n = true := by
+    unfold inI64
+    simp only [Bool.and_eq_true, decide_eq_true_eq]
+    omega
+  exact getitem_some d E now i r hr _
+    (get_int_row d.cache E now r n h.inv hmem hk hraw hi (h.noexp r hmem) h.stats h.pol hdisk hf)
 
 /-- `clear()` empties the deque -/
 theorem clear_empties (d : Deque) (h : Ok d) (hp : 0 < d.cache.cfg.page) : items (d.clear).1 = [] := by
-  sorry
+  show (d.cache.clear).1.queueRows none = []
+  rw [queueRows_eq, (clear_all d.cache h.inv.tbl.asc h.inv.tbl.pos hp).1]
+  rfl
 
 /-- non-vacuity: maxlen 2, three appends: the first item is gone, order kept -/
 def exE11 : Externals :=
@@ -113,5 +243,65 @@ example :
     (items d).map (·.val) = [.int 1, .int 2] ∧ (items d3).map (·.val) = [.int 2, .int 3] ∧
     (match (d3.pop exE11 0 true).2 with | .val (.int 2) => true | _ => false) = true := by
   decide +kernel
+
+/-! why `getitem_spec` needs `hdisk`: a one-item deque on a JSONDisk cache (the table one `append`
+produces), a codec satisfying `hE`; `Ok` holds, `rowAt 0` is the item, its value can be fetched,
+yet `deque[0]` raises IndexError -/
+def exL : Externals :=
+  { dumpsK := fun v => match v with
+      | .none => [0] | .int i => [1, i.toNat, (-i).toNat] | .float f => [2, f]
+      | .str s => 3 :: s | .bytes b => 4 :: b | .obj o => 5 :: o,
+    dumpsV := fun _ => [],
+    loads := fun b => match b with
+      | [0] => .none | [1, p, n] => .int ((p : Int) - n) | [2, f] => .float f
+      | 3 :: s => .str s | 4 :: b => .bytes b | 5 :: o => .obj o | _ => .none,
+    jsonz := fun _ => [], unjsonz := fun _ => .none }
+
+theorem exL_lawful : ∀ k, exL.loads (exL.dumpsK k) = k := by
+  intro k
+  cases k <;> simp [exL]
+  omega
+
+def exJsonRow : Row :=
+  { rowid := 1, key := .int 500000000000000, raw := true, storeT := 0, expT := none, accT := 0, accN := 0,
+    tag := .null, size := 0, mode := 1, file := none, val := .blob [] }
+
+def exDqJson : Deque := { cache := { rows := [exJsonRow], count := 1, cfg := { policy := .none, disk := .json } } }
+
+example : (({ cache := { cfg := { policy := .none, disk := .json } } } : Deque).append exL 0 (.int 1) false).1.cache.rows
+    = exDqJson.cache.rows := by decide +kernel
+
+theorem exDqJson_items : exDqJson.cache.queueRows none = [exJsonRow] := by decide +kernel
+
+theorem exDqJson_ok : Ok exDqJson where
+  inv := ⟨⟨by simp [RowidsAsc, exDqJson], by decide +kernel, by simp [KeysUnique, exDqJson],
+    by decide +kernel, rfl, rfl⟩, by intro p hp; cases hp⟩
+  pol := rfl
+  noexp := by decide +kernel
+  allq := by
+    intro r hr
+    rw [exDqJson_items]
+    exact hr
+  qok := by
+    intro r hr
+    rw [exDqJson_items] at hr
+    simp only [List.mem_singleton] at hr
+    subst hr
+    exact ⟨500000000000000, rfl, rfl, by omega, by omega⟩
+  room := by
+    intro r hr n hn
+    rw [exDqJson_items] at hr
+    simp only [List.mem_singleton] at hr
+    subst hr
+    cases hn
+    omega
+  origin := by unfold OriginOk; decide +kernel
+  depth := rfl
+  stats := rfl
+
+theorem exDqJson_getitem : Ok exDqJson ∧ (∀ k, exL.loads (exL.dumpsK k) = k) ∧
+    exDqJson.rowAt 0 = some exJsonRow ∧ (exDqJson.cache.fetchRow exL exJsonRow false).2 = .val .none ∧
+    (match (exDqJson.getitem exL 0 0).2 with | .exc "IndexError" => true | _ => false) = true :=
+  ⟨exDqJson_ok, exL_lawful, by decide +kernel, by decide +kernel, by decide +kernel⟩
 
 end DC.Deque
